@@ -42,6 +42,7 @@ package types
 //@ spec func dot(s string) int
 //@ func ParseDecimal
 //@   props C12 C10
+//@   pure
 //@   arith checked
 //@   safety
 //@   results d, err
@@ -70,6 +71,7 @@ package types
 
 //@ func ParseDuration
 //@   props C12 C10
+//@   pure
 //@   arith checked
 //@   safety
 //@   results d, err
@@ -120,3 +122,55 @@ package types
 //@   props C12 C01
 //@   results r
 //@   ensures r == d.value
+
+// ------------------------------------------------- ordering (long.go, datetime.go, duration.go)
+
+//@ func (Value) Equal
+//@   pure
+//@ func (Value) hash
+//@   pure
+
+//@ func (Long) LessThan
+//@   props C01
+//@   results r, err
+//@   ensures (bi is Long) ? (err == nil && r == (l < bi.(Long))) : err != nil
+//@ func (Long) LessThanOrEqual
+//@   props C01
+//@   results r, err
+//@   ensures (bi is Long) ? (err == nil && r == (l <= bi.(Long))) : err != nil
+//@ func (Datetime) LessThan
+//@   props C01
+//@   results r, err
+//@   ensures (bi is Datetime) ? (err == nil && r == (d.value < bi.(Datetime).value)) : err != nil
+//@ func (Datetime) LessThanOrEqual
+//@   props C01
+//@   results r, err
+//@   ensures (bi is Datetime) ? (err == nil && r == (d.value <= bi.(Datetime).value)) : err != nil
+//@ func (Duration) LessThan
+//@   props C01
+//@   results r, err
+//@   ensures (bi is Duration) ? (err == nil && r == (d.value < bi.(Duration).value)) : err != nil
+//@ func (Duration) LessThanOrEqual
+//@   props C01
+//@   results r, err
+//@   ensures (bi is Duration) ? (err == nil && r == (d.value <= bi.(Duration).value)) : err != nil
+
+//@ func NewDatetimeFromMillis
+//@   props C12 C01
+//@   results d
+//@   ensures d.value == ms
+//@ func (Datetime) Milliseconds
+//@   props C12 C01
+//@   results r
+//@   ensures r == d.value
+
+// Parsers whose bodies depend on time / net/netip: used as deterministic
+// functions of the argument by the evaluator contracts.
+//@ func ParseDatetime
+//@   pure
+//@   trusted
+//@   results d, err
+//@ func ParseIPAddr
+//@   pure
+//@   trusted
+//@   results a, err
